@@ -292,6 +292,16 @@ def sqrt(x):
     return R(Node('fn', ('sqrt', x.n), s))
 
 
+def sqrt_approx(x):
+    """like sqrt, but a radicand whose shadow is not a rational square gets an approximate shadow
+    (used only to decide later comparisons; generic inputs stay away from ties)"""
+    x = R.lift(x) if not isinstance(x, R) else x
+    s = _exact_sqrt(x.val)
+    if s is None:
+        s = Fraction(math.sqrt(float(x.val)))
+    return R(Node('fn', ('sqrt', x.n), s))
+
+
 class Cx:
     """complex value with symbolic real and imaginary parts"""
     __slots__ = ('re', 'im')
@@ -365,7 +375,7 @@ class Cx:
         return out
 
     def __abs__(self):
-        return sqrt(self.re * self.re + self.im * self.im)
+        return sqrt_approx(self.re * self.re + self.im * self.im)
 
     def __eq__(self, o):
         o = Cx.lift(o)
